@@ -124,3 +124,13 @@ extend("C17", "integer-width sweep (i8, i16, i64, i128): totality and missing er
 extend("C18", "deep / converted forms, arithmetic chains inside conditions, all six comparisons, relaxed differentiation modes at integer points", "All families run through flat, deep and converted forms; conditions contain arithmetic chains; all six comparisons with every pair of leaves; conditions with an operator without derivative rule through partial_relaxed (PerOperand / None).")
 extend("C19", "4 neighbouring representable values on either side of every catalogue entry", "The special-value catalogue is closed under +-1..4 ulp neighbours (domain edges, ties, exponent 0.5 +- ulp).")
 extend("C20", "uncompiled shared expressions with compiled clones, two integer widths of the value type, six pattern-based literal matchers, two operator tables with prefix-related names, fresh-process replays", "Jobs also cover: eval_vec on an uncompiled shared expression followed by compile() of a clone; the value type over i32 and i64 in one process; six literal_matcher_from_pattern! matchers used in rotation on one thread; two tables over one data type with `*` and `**` in different slots.")
+extend("C03", "DFDF pipeline (deep -> flat -> deep -> flat) in every campaign", "Pipelines include repeated conversion in both directions (DFDF) on every tree and on the large families.")
+extend("C05", "one-level expressions with 19..64 mixed-priority operators", "A family of large single-level texts (19..64 binary operators of mixed priority, non-commutative ties) is differentiated in every form and compared over exact rationals.")
+extend("C06", "`=` in the token alphabets of the statement-line entry points", "The statement entry points are also driven with `=` as a token at every position.")
+extend("C09", "texts with 16..200 variables; derived bases with signed groups", "Index arithmetic is explored on texts with up to 200 variables; derived-expression histories start also from bases with a signed group (x*(-(y*z))).")
+extend("C10", "uncompiled flat form; overloaded minus and named helpers in the derived-expression histories", "The by-name model also runs on parse_wo_compile expressions; derived-expression histories include the overloaded minus and the helpers cos() / exp().")
+extend("C13", "second factory (same names, reverse order) parsed on the same thread before every text; differential over all parsing entry points", "Three families parse a text with a reverse-order twin factory first; a differential compares FlatEx::parse, parse_wo_compile, DeepEx::parse, exmex::parse and eval_str on every text.")
+extend("C16", "component access on arrays of 0..300 elements per integer width", "The width sweep includes `.` (component access) with arrays longer than the largest i8 / i16.")
+extend("C17", "component access on arrays of 0..300 elements per integer width", "The width sweep includes `.` (component access) with arrays longer than the largest i8 / i16.")
+extend("C18", "uncompiled flat form", "All families also run on FlatExVal::parse_wo_compile expressions.")
+extend("C20", "a 270-level shared deep expression; two factory types with the same type name", "Bodies also share one 270-level deep expression between threads, and use two operator factories whose types have the same name (sibling blocks) with different operator order.")
